@@ -47,8 +47,16 @@ by `bin/check C16` with /verif/known_findings.json — exactly the typed-view ac
 `ElementPointer` downcasts that return owner-lifetime data from `&(mut) self` -/
 def badRows : List String := (table.filter fun m => !wf m).map (·.name)
 
+/-- **every mutating method of the typed view takes `&mut self`** (receivers as scanned from the source of this run): so
+none of them can be called through an `AnyVecRef`, the shared view one gets from `&AnyVec` while other shared borrows -
+element references, iterators, byte views - are alive; `AnyVecTyped` holds a raw pointer, so the receiver is the only
+thing that stands between a shared view and a mutation -/
+theorem typed_mutators_need_exclusive : (mutators.all fun m => m.2 == .excl) = true := by
+  decide +kernel
+
 /-! non-vacuity -/
 example : (table.filter wf).length ≥ 10 := by decide +kernel
+example : mutators.length ≥ 20 := by decide +kernel
 
 end C16
 end AnyVec
